@@ -325,6 +325,8 @@ class SGen(object):
             if r.random() < 0.3:
                 self.emit(ind, 'finally:')
                 self.cblock(ind + 1, 1, False)
+        elif k < 0.86 and o.declarations and self.depth_fn >= 1:
+            self.deep_decl(ind)
         elif k < 0.93 and self.depth < o.max_depth:
             self.fundef(ind)
         elif k < 0.97 and o.classes and self.depth < o.max_depth:
@@ -356,6 +358,44 @@ class SGen(object):
                     if r.random() < 0.7:
                         self.emit(ind, '%s = %s' % (d.split()[1], self.expr(2)))
             self.stmt(ind, loop)
+
+    def deep_decl(self, ind):
+        """a name bound here and declared nonlocal (or global) two or more function levels below, read-only, write-only
+        or read+write there; the functions in between do not mention it (CPython: free in each of them)"""
+        r = self.r
+        v = r.choice(NAMES)
+        kind = r.choice(['nonlocal', 'nonlocal', 'nonlocal', 'global'])
+        if kind == 'nonlocal' or r.random() < 0.5:
+            self.emit(ind, '%s = %s' % (v, self.expr(2)))
+        levels = r.randint(2, 3)
+        names = []
+        for i in range(levels):
+            self.uid += 1
+            names.append('fn%d' % self.uid)
+            self.emit(ind + i, 'def %s(%s):' % (names[-1], r.choice(['', 'p%d' % i, 'p%d=%s' % (i, self.name())])))
+        b = ind + levels
+        if r.random() < 0.3:
+            self.emit(b, 'if %s:' % self.name())
+            b += 1
+            self.emit(b, '%s %s' % (kind, v))
+            self.emit(b, 'pass')
+            b -= 1
+            self.emit(b, 'else:')
+            self.emit(b + 1, 'pass')
+        else:
+            self.emit(b, '%s %s' % (kind, v))
+        use = r.randint(0, 3)
+        if use == 0:
+            self.emit(b, 'return %s + %s' % (v, self.name()))
+        elif use == 1:
+            self.emit(b, '%s = %s' % (v, r.choice(['1', 'p0', self.name()]) if v != 'p0' else '1'))
+        elif use == 2:
+            self.emit(b, '%s += 1' % v)
+            self.emit(b, 'return %s' % v)
+        else:
+            self.emit(b, 'del %s' % v)
+        for i in reversed(range(levels - 1)):
+            self.emit(ind + i + 1, r.choice(['return %s()' % names[i + 1], '%s()' % names[i + 1], 'return %s' % names[i + 1]]))
 
     def decls(self, ind):
         r = self.r
@@ -531,6 +571,26 @@ class DGen(progs.Gen):
         v = r.choice(self.vars)
         if k >= 14:
             return self.shadow_comp(ind, defined, v)
+        if k == 13 and r.random() < 0.7:
+            w = self.rd(defined)
+            if w in self.vars or w in progs.PARAMS:
+                # the variable of f is declared nonlocal two function levels below (read-only / write-only / read+write)
+                a, b = 'g%d' % self.key(), 'g%d' % self.key()
+                self.emit(ind, 'def %s(p):' % a)
+                self.emit(ind + 1, 'def %s():' % b)
+                self.emit(ind + 2, 'nonlocal %s' % w)
+                use = r.randint(0, 2)
+                if use == 0:
+                    self.emit(ind + 2, 'return %s + p' % w)
+                elif use == 1:
+                    self.emit(ind + 2, '%s = p' % w)
+                    self.emit(ind + 2, 'return p')
+                else:
+                    self.emit(ind + 2, '%s += p' % w)
+                    self.emit(ind + 2, 'return %s' % w)
+                self.emit(ind + 1, 'return %s()' % b)
+                self.emit(ind, '%s = %s(%s)' % (v, a, self.texpr(defined)))
+                return defined | {v}
         if k == 0:
             self.emit(ind, '%s = [q + %s for q in (1, 2) if q]' % (v, self.rd(defined)))
             return defined | {v}
